@@ -186,6 +186,49 @@ def check_graph(obj, s):
         loose = [u for u in adj if u not in seen]
         if loose:
             problems.append(('figure_split', 'wire %s: %d net endpoints are not connected to the driver' % (w.name, len(loose)), {}))
+    # ---- routed geometry: the poly-line of a net (and the line a pass-through marker draws) must not run over a pin of another
+    # wire.  Pins that another clause already reports as drawn on one point (pins_coincide) are not reported again here.
+    allpins = []        # (x, y, id(wire), 'sym.port')
+    for wid, r in pins.items():
+        for lst, fn in ((r['drv'], 'getPortSourcePos'), (r['rd'], 'getPortSinkPos')):
+            for sym, port in lst:
+                if sym is None:
+                    continue
+                try:
+                    px, py = getattr(sym, fn)(port)[:2]
+                except Exception:
+                    continue
+                allpins.append((sym.x + px, sym.y + py, wid, '%s.%s' % (getattr(sym, 'name', '?'), port.name)))
+    own = {}
+    for x, y, wid, _d in allpins:
+        own.setdefault(wid, set()).add((x, y))
+    st['route_segments_judged'] = 0
+    n_geo = 0
+    for n in s.nets:
+        wid = id(n.wire)
+        if wid not in pins or len(pins[wid]['drv']) != 1 or n.x is None:
+            continue
+        xs, ys = list(n.x), list(n.y)
+        segs = [(xs[i], ys[i], xs[i + 1], ys[i + 1]) for i in range(len(xs) - 1)]
+        for e in (n.source, n.sink):
+            if isinstance(e, S.PassthroughSymbol):
+                segs.append((e.x, e.y + e.h // 2, e.x + e.w, e.y + e.h // 2))
+        st['route_segments_judged'] += len(segs)
+        for (x0, y0, x1, y1) in segs:
+            lx, hx, ly, hy = min(x0, x1), max(x0, x1), min(y0, y1), max(y0, y1)
+            for px, py, pw, desc in allpins:
+                if pw != wid and lx <= px <= hx and ly <= py <= hy and (px, py) not in own.get(wid, ()):
+                    sc, kc = getattr(n.source, 'c', None), getattr(n.sink, 'c', None)
+                    shape = 'adjacent'
+                    if sc is not None and kc is not None and not isinstance(n.source, virtual) and not isinstance(n.sink, virtual):
+                        shape = 'backward_unmarked' if kc <= sc else ('long_unmarked' if kc > sc + 1 else 'adjacent')
+                    elif isinstance(n.source, virtual) or isinstance(n.sink, virtual):
+                        shape = 'marker'
+                    n_geo += 1
+                    if n_geo <= 6:
+                        problems.append(('route_over_foreign_pin', 'the drawn net of wire %s (%s -> %s) runs over pin %s of another wire at %r' % (
+                            n.wire.name, getattr(n.source, 'name', '?'), getattr(n.sink, 'name', '?'), desc, (px, py)), dict(net=shape)))
+                    break
     for wid, nets in nets_of.items():
         if wid not in pins:
             problems.append(('net_of_unknown_wire', 'nets drawn for a wire that no child/port of the block uses', {}))
